@@ -518,8 +518,11 @@ class FunctionStub(Stub):
         s += render_signature(self.signature, 120 - len(s), prefix) + ": ..."
         # Yes, this is a horrible hack, but inspect.py gives us no way to
         # specify the function that should be used to format annotations.
-        for module in self.strip_modules:
-            s = s.replace(module + ".", "")
+        # Longest first, and only where the module name is not the tail of
+        # another dotted name (stripping `utils.` must not turn `pkg.utils.C`
+        # into `pkg.C`, nor `foo.` turn `barfoo.C` into `barC`).
+        for module in sorted(self.strip_modules, key=len, reverse=True):
+            s = re.sub(r"(?<![\w.])" + re.escape(module) + r"\.", "", s)
         if self.kind == FunctionKind.CLASS:
             s = prefix + "@classmethod\n" + s
         elif self.kind == FunctionKind.STATIC:
